@@ -122,7 +122,7 @@ fn field_class(name: &str) -> &str {
 
 /// Every single-component perturbation of a serialized proof, plus a
 /// shortened and a lengthened L/R vector.
-fn proof_perturbations(bytes: &[u8]) -> Vec<(String, Vec<u8>)> {
+pub(crate) fn proof_perturbations(bytes: &[u8]) -> Vec<(String, Vec<u8>)> {
     let mut out = vec![];
     let fields = match proof_fields(bytes) {
         Some(f) => f,
